@@ -47,7 +47,41 @@ PROFILES = {
                 "imports": ["Sylvia.Model.RustSem", "Sylvia.Model.RustExtern"], "opens": "open RustSem RustExtern",
                 "vars": "variable {Binary Coin : Type}", "str": "String", "only": None, "tparams": ["Binary", "Coin"],
                 "extern_types": {"WasmMsg": "WasmMsg Binary Coin"}, "extern_enums": {"WasmMsg": ["Instantiate", "Instantiate2"]}},
+    # the bridge to chain-custom types (C11): `IntoMsg::into_msg` and `IntoResponse::into_response`, trait methods on cosmwasm_std's
+    # SubMsg / Response (declared in Sylvia/Model/RustExtern.lean); arms compiled under `#[cfg(feature = "..")]` become
+    # `if feat ".." then <arm> else <the wildcard arm>`, so the regenerated function is the code under every feature set at once
+    "bridge": {"src": ("sylvia", "src", "into_response.rs"), "out": "BridgeFns.lean", "ns": "Extracted.Bridge",
+               "imports": ["Sylvia.Model.RustSem", "Sylvia.Model.RustExtern"], "opens": "open RustSem RustExtern",
+               "vars": "variable {X : Ext} {C T : Type}", "str": "String", "only": [], "only_enums": [],
+               "trait_only": ["SubMsg.into_msg", "Response.into_response"], "type_vars": ["C", "T"],
+               "leading_binders": "(feat : String → Bool)", "leading_args": "feat",
+               "extern_types": {"Empty": "CwEmpty", "StdError": "StdError"},
+               "extern_generic": {"SubMsg": "SubMsg X", "Response": "Response X", "CosmosMsg": "CosmosMsg X", "StdResult": "Except StdError"},
+               "extern_enum_fields": {"CosmosMsg": {"Bank": ["_"], "Custom": ["_"], "Staking": ["_"], "Distribution": ["_"], "Stargate": ["_", "_"],
+                                                    "Ibc": ["_"], "Wasm": ["_"], "Gov": ["_"], "Any": ["_"]}},
+               "extern_variant_fields": {"CosmosMsg": {"Stargate": ["type_url", "value"]}},
+               "extern_enums": {"CosmosMsg": ["Stargate"]},
+               "extern_structs": {"SubMsg": "SubMsg X _", "Response": "Response X _"},
+               "extern_calls": {"Response::new": "Response.new", "StdError::generic_err": "StdError.generic_err"},
+               "extern_methods": {"add_submessages": "Response.add_submessages", "add_events": "Response.add_events",
+                                  "add_attributes": "Response.add_attributes"}},
 }
+
+
+def lean_str(s):
+    if any(ord(ch) > 126 or (ord(ch) < 32 and ch not in "\n\t") for ch in s):
+        raise Unsupported("string literal outside printable ASCII")
+    return json.dumps(s)
+
+
+def cfg_feature(attr):
+    """`cfg(feature = "x")` (normalised token text) -> "x"; `allow(..)` -> None; anything else is outside the subset"""
+    a = attr.replace(" ", "")
+    if a.startswith("allow("):
+        return None
+    if a.startswith('cfg(feature="') and a.endswith('")') and a.count('"') == 2:
+        return a[len('cfg(feature="'):-2]
+    raise Unsupported("attribute on a match arm: %s" % attr)
 
 
 def ch_literal(c):
@@ -76,6 +110,12 @@ class FnTr:
         self.nloops = 0
         self.types = {}          # variable -> lean type
         self.order = []          # declaration order of fn-level variables
+        self.depth = 0           # > 0 while translating the body of a loop
+        if isinstance(fn["generics"], str):
+            if fn["generics"].strip():
+                raise Unsupported("generic method")
+            fn = dict(fn, generics=[])
+            self.fn = fn
         self.generics = [g[1] for g in fn["generics"]]
         for g in fn["generics"]:
             if g[0] != "const":
@@ -171,6 +211,15 @@ class FnTr:
                     out.append(self.pat(s_))
                 return "." + path[1] + "".join(" " + o for o in out)
             raise Unsupported("tuple-struct pattern %s" % path)
+        if k == "pstruct":
+            path, fields, has_rest = p[1], p[2], p[3]
+            names = self.mod.profile.get("extern_variant_fields", {}).get(path[0], {}).get(path[-1]) if len(path) == 2 else None
+            if names is None:
+                raise Unsupported("struct pattern %s" % "::".join(path))
+            given = {f[0]: f[1] for f in fields}
+            if set(given) - set(names) or (not has_rest and set(given) != set(names)):
+                raise Unsupported("fields of struct pattern %s" % "::".join(path))
+            return "." + path[1] + "".join(" " + (self.pat(given[n]) if n in given else "_") for n in names)
         if k == "por":
             return " | ".join(self.pat(x) for x in p[1])
         if k == "ptuple":
@@ -191,6 +240,25 @@ class FnTr:
             return k("()")
         if t == "char":
             return k(ch_literal(e[1]))
+        if t == "str":
+            return k(lean_str(e[1]))
+        if t == "format":
+            return k("(fmt %s)" % lean_str(e[1]))
+        if t == "try":
+            if self.depth:
+                raise Unsupported("`?` inside a loop")
+            inner = e[1]
+            if inner[0] == "call" and inner[1] == ["path", ["Err"]] and len(inner[2]) == 1:
+                return self.ex(inner[2][0], lambda v: [".ok (.error %s)" % v])
+            def kt(v):
+                x = hint or self.fresh()
+                return ["match %s with" % v, "| .error e => .ok (.error e)", "| .ok %s =>" % x] + ind(k(x))
+            return self.ex(inner, kt)
+        if t == "return":
+            if self.depth:
+                raise Unsupported("`return` in expression position inside a loop")
+            val = e[1] if e[1] is not None else ["unit"]
+            return self.ex(val, lambda v: [".ok %s" % v])
         if t == "field":
             return self.ex(e[1], lambda b: k("%s.%s" % (b, e[2])))
         if t == "tuple":
@@ -212,6 +280,8 @@ class FnTr:
                     return k("({ %s } : %s)" % (", ".join("%s := %s" % (n, v) for n, v in zip(names, vs)), self.mod.struct_ty(sname)))
                 if len(path) == 2 and path[1] in self.mod.profile.get("extern_enums", {}).get(path[0], []):
                     return k("(%s.%s %s)" % (path[0], path[1], " ".join("(%s := %s)" % (n, v) for n, v in zip(names, vs))))
+                if len(path) == 1 and path[0] in self.mod.profile.get("extern_structs", {}):
+                    return k("({ %s } : %s)" % (", ".join("%s := %s" % (n, v) for n, v in zip(names, vs)), self.mod.profile["extern_structs"][path[0]]))
                 raise Unsupported("struct literal %s" % "::".join(path))
             return self.args([f[1] for f in fields], kf)
         if t == "path":
@@ -262,6 +332,38 @@ class FnTr:
                 return self.ex(e[1], lambda r: k("(toLower %s)" % r))
             if name == "char_indices" and not e[3]:
                 return self.ex(e[1], lambda r: k("(charIndices %s)" % r))
+            if name == "into_iter" and not e[3]:
+                return self.ex(e[1], k)      # an owned Vec iterated in order: the list itself
+            if name == "collect" and not e[3]:
+                src = e[1]
+                turbo = (e[4] if len(e) > 4 else None) or ""
+                if "Result" not in turbo:
+                    raise Unsupported("collect into %s" % (turbo or "an inferred type"))
+                if not (src[0] == "mcall" and src[2] == "map" and len(src[3]) == 1 and src[3][0][0] == "closure" and len(src[3][0][1]) == 1):
+                    raise Unsupported("collect over something else than iter.map(|x| ..)")
+                cl = src[3][0]
+                cpat = self.pat(cl[1][0])
+                if self.depth:
+                    raise Unsupported("closure inside a loop")
+                body = self.ex(cl[2], lambda v: [".ok %s" % v])
+
+                def kc(xs):
+                    v = hint or self.fresh()
+                    return ["(collectResult (fun %s =>" % cpat] + ind(body, 2) + ["  ) %s).bind fun %s =>" % (xs, v)] + k(v)
+                return self.ex(src[1], kc)
+            if name in self.mod.profile.get("extern_methods", {}):
+                return self.ex(e[1], lambda r: self.args(e[3], lambda vs: k("(%s %s)" % (self.mod.profile["extern_methods"][name], " ".join([r] + vs)))))
+            cands = [n for n in self.mod.fns if n.split(".")[-1] == name and "." in n]
+            if len(cands) == 1:
+                callee = cands[0]
+                self.mod.calls.setdefault(self.name, set()).add(callee)
+
+                def kr(r):
+                    def kcall(vs):
+                        v = hint or self.fresh()
+                        return ["(%s).bind fun %s =>" % (self.mod.call_text(callee, self, [r] + vs), v)] + k(v)
+                    return self.args(e[3], kcall)
+                return self.ex(e[1], kr)
             raise Unsupported("method %s" % name)
         if t == "repeat":
             return self.ex(e[1], lambda v: self.ex(e[2], lambda n: k("(List.replicate %s %s)" % (n, v))))
@@ -269,13 +371,7 @@ class FnTr:
             return self.call(e, k, hint)
         if t == "match":
             def km(s):
-                out = ["match %s with" % s]
-                for pat, guard, body in e[2]:
-                    if guard is not None:
-                        raise Unsupported("match guard")
-                    out.append("| %s =>" % self.pat(pat))
-                    out += ind(self.ex(body, k))
-                return out
+                return self.match_arms(s, e[2], lambda body: self.ex(body, k))
             return self.ex(e[1], km)
         if t == "block":
             return self.block(e[1], None, kval=k, kend=lambda: k("()"))
@@ -286,6 +382,37 @@ class FnTr:
         if t == "panic":
             return [".panic"]
         raise Unsupported("expression %s" % json.dumps(e)[:100])
+
+    def match_arms(self, s, arms, karm):
+        """arms of a `match`; an arm under `#[cfg(feature = "f")]` is `if feat "f" then <arm> else <wildcard arm>`; the wildcard arm
+        itself is emitted only when the explicit arms do not cover every variant of a foreign enum (Lean rejects a redundant one)"""
+        out = ["match %s with" % s]
+        arms = [list(a_) + [[]] * (4 - len(a_)) for a_ in arms]
+        feats = [[f for f in (cfg_feature(x) for x in a_[3]) if f is not None] for a_ in arms]
+        wild = [i for i, a_ in enumerate(arms) if a_[0][0] == "wild"]
+        any_cfg = any(feats)
+        if any_cfg and not self.mod.profile.get("leading_args"):
+            raise Unsupported("conditionally compiled match arm")
+        if any_cfg and (len(wild) != 1 or wild[0] != len(arms) - 1 or feats[wild[0]]):
+            raise Unsupported("conditionally compiled arms without one unconditional wildcard arm at the end")
+        covered, enum = set(), None
+        for a_ in arms:
+            if a_[0][0] in ("pts", "pstruct", "ppath") and len(a_[0][1]) == 2:
+                enum = a_[0][1][0]
+                covered.add(a_[0][1][1])
+        ext = self.mod.profile.get("extern_enum_fields", {}).get(enum)
+        for i, (pat, guard, body, _attrs) in enumerate(arms):
+            if guard is not None:
+                raise Unsupported("match guard")
+            if i in wild and ext is not None and covered >= set(ext) and i == len(arms) - 1:
+                continue
+            out.append("| %s =>" % self.pat(pat))
+            if feats[i]:
+                cond = " && ".join("feat %s" % lean_str(f) for f in feats[i])
+                out += ind(["if %s then" % cond] + ind(karm(body)) + ["else"] + ind(karm(arms[wild[0]][2])))
+            else:
+                out += ind(karm(body))
+        return out
 
     def pure(self, e):
         """lean term of an expression that has no effects (no indexing, no calls of translated functions)"""
@@ -313,6 +440,12 @@ class FnTr:
             return k("[]")
         if p == ["Some"] and len(argl) == 1:
             return self.ex(argl[0], lambda v: k("(some %s)" % v))
+        if p == ["Ok"] and len(argl) == 1:
+            return self.ex(argl[0], lambda v: k("(Except.ok %s)" % v))
+        if p == ["Err"] and len(argl) == 1:
+            return self.ex(argl[0], lambda v: k("(Except.error %s)" % v))
+        if "::".join(p) in self.mod.profile.get("extern_calls", {}):
+            return self.args(argl, lambda vs: k("(%s)" % " ".join([self.mod.profile["extern_calls"]["::".join(p)]] + vs) if vs else self.mod.profile["extern_calls"]["::".join(p)]))
         if p == ["konst", "cmp_str"]:
             self.mod.uses_cmp.add(self.name)
             return self.args(argl, lambda vs: k("(cmp_str %s %s)" % tuple(vs)))
@@ -347,6 +480,7 @@ class FnTr:
         kval(v): continuation for the value of a trailing expression (None = statement block).
         kend(): continuation when the block falls through."""
         def go(i):
+            self.depth = 0 if ctx is None else 1
             if i == len(stmts):
                 return kend()
             st = stmts[i]
@@ -374,7 +508,10 @@ class FnTr:
         return go(0)
 
     def declare_local(self, x, init, ctx):
-        t = self.infer(init)
+        try:
+            t = self.infer(init)
+        except Unsupported:
+            t = "?"          # only loops need the types of the variables they carry
         if ctx is None:
             self.declare(x, t)
         else:
@@ -406,13 +543,7 @@ class FnTr:
             return self.cond(e[1], lambda: self.block(e[2], ctx, None, rest), kelse)
         if t == "match":
             def km(s):
-                out = ["match %s with" % s]
-                for pat, guard, body in e[2]:
-                    if guard is not None:
-                        raise Unsupported("match guard")
-                    out.append("| %s =>" % self.pat(pat))
-                    out += ind(self.stmt_block(body, ctx, rest))
-                return out
+                return self.match_arms(s, e[2], lambda body: self.stmt_block(body, ctx, rest))
             return self.ex(e[1], km)
         if t == "block":
             return self.block(e[1], ctx, None, rest)
@@ -496,6 +627,9 @@ class FnTr:
     def loop(self, e, ctx, rest):
         if ctx is not None:
             raise Unsupported("nested loops")
+        return self.loop_(e, ctx, rest)
+
+    def loop_(self, e, ctx, rest):
         is_for = e[0] == "for_range"
         is_each = e[0] == "for"
         body = e[4] if is_for else (e[3] if is_each else e[2])
@@ -520,6 +654,8 @@ class FnTr:
         fixed = [v for v in self.order if v not in carried and v not in bound and (v in ment or v in self.generics)]
         if is_for and e[1] in fixed:
             fixed.remove(e[1])
+        if any(self.types[v] == "?" for v in carried + fixed):
+            raise Unsupported("loop over a variable whose type is not inferred")
         sigma = "Unit" if not carried else " × ".join(self.paren_ty(self.types[v]) for v in carried)
         done_pat = "()" if not carried else (carried[0] if len(carried) == 1 else "(" + ", ".join(carried) + ")")
         lctx = {"locals": set(), "name": lname}
@@ -603,12 +739,15 @@ class FnTr:
 class ModTr:
     def __init__(self, ast, profile=None):
         self.profile = profile or PROFILES["utils"]
-        if self.profile.get("only"):
+        tonly = self.profile.get("trait_only", [])
+        if self.profile.get("only") is not None and (self.profile["only"] or tonly):
             only = self.profile["only"]
             ast = dict(ast, fns=[f for f in ast["fns"] if f["name"] in only],
                        enums=[e for e in ast["enums"] if e["name"] in self.profile.get("only_enums", [])], structs=[],
                        methods=[m for m in ast.get("methods", []) if m["owner"] + "." + m["name"] in only])
             missing = [n for n in only if n not in [f["name"] for f in ast["fns"]] + [m["owner"] + "." + m["name"] for m in ast["methods"]]]
+            have = [m["owner"] + "." + m["name"] for m in ast.get("trait_methods", [])]
+            missing += [n for n in tonly if have.count(n) != 1]
         else:
             missing = []
         self.missing = missing
@@ -636,9 +775,21 @@ class ModTr:
             self.fns[name] = {"name": name, "generics": [], "params": params, "ret": ret, "body": m["body"], "owner": m["owner"]}
             if m["attrs"]:
                 self.method_notes[name] = m["attrs"]
+        for tm in ast.get("trait_methods", []):
+            name = tm["owner"] + "." + tm["name"]
+            if name not in tonly or name in missing:
+                continue
+            params = [[["pid", "self"], tm["self_ty"]] if pp[0] == "self" else [pp, tt] for pp, tt in tm["params"]]
+            self.fns[name] = {"name": name, "generics": tm["generics"], "params": params, "ret": tm["ret"], "body": tm["body"], "owner": tm["owner"]}
+            notes = [x for x in tm["attrs"] if x]
+            if notes:
+                self.method_notes[name] = notes
         for en in ast["enums"]:
             self.enums[en["name"]] = {v[0]: [self.ty(t) for t in v[1]] for v in en["variants"]}
         self.enum_order = [en["name"] for en in ast["enums"]]
+        self.extern_enum_names = set(self.profile.get("extern_enum_fields", {}))
+        for en, vs in self.profile.get("extern_enum_fields", {}).items():
+            self.enums[en] = dict(vs)
         self.uses_cmp = set()
         self.has_while = set()
         self.calls = {}
@@ -666,6 +817,8 @@ class ModTr:
                 return "Option %s" % FnTr.paren_ty(self.ty(t[2][0]))
             if name == "Vec" and len(t[2]) == 1:
                 return "List %s" % FnTr.paren_ty(self.ty(t[2][0]))
+            if name in self.profile.get("extern_generic", {}) and len(t[2]) == 1:
+                return "%s %s" % (self.profile["extern_generic"][name], FnTr.paren_ty(self.ty(t[2][0])))
             raise Unsupported("type constructor %s" % name)
         if k == "tpath":
             p = t[1]
@@ -679,7 +832,7 @@ class ModTr:
                 return "Ch"
             if p == ["u64"] or p == ["u32"] or p == ["u128"]:
                 return "Nat"
-            if len(p) == 1 and p[0] in self.profile.get("tparams", []):
+            if len(p) == 1 and p[0] in self.profile.get("tparams", []) + self.profile.get("type_vars", []):
                 return p[0]
             if len(p) == 1 and p[0] in self.profile.get("extern_types", {}):
                 return self.profile["extern_types"][p[0]]
@@ -700,6 +853,10 @@ class ModTr:
                     direct.add(f)
                 if len(n) == 3 and n[0] == "call" and n[1][0] == "path" and len(n[1][1]) == 1 and n[1][1][0] in self.fns:
                     calls.setdefault(f, set()).add(n[1][1][0])
+                if len(n) >= 4 and n[0] == "mcall" and isinstance(n[2], str):
+                    cands = [m for m in self.fns if "." in m and m.split(".")[-1] == n[2]]
+                    if len(cands) == 1 and cands[0] != f:
+                        calls.setdefault(f, set()).add(cands[0])
                 for x in n:
                     walk(x, f)
         for name, f in self.fns.items():
@@ -750,7 +907,7 @@ class ModTr:
 
     def call_text(self, callee, caller, vals):
         f = self.fns[callee]
-        parts = [callee]
+        parts = [callee] + ([self.profile["leading_args"]] if self.profile.get("leading_args") else [])
         if callee in self.cmp:
             parts.append("cmp_str")
         if callee in self.fuel:
@@ -809,7 +966,7 @@ class ModTr:
             text = []
             for lp in ft.loops:
                 text += lp["lines"] + [""]
-            binders = ("(fuel0 : Nat) " if name in self.fuel else "") + " ".join("(%s : %s)" % (v, ft.types[v]) for v in ft.generics + ft.params)
+            binders = (pr["leading_binders"] + " " if pr.get("leading_binders") else "") + ("(fuel0 : Nat) " if name in self.fuel else "") + " ".join("(%s : %s)" % (v, ft.types[v]) for v in ft.generics + ft.params)
             if name in self.method_notes:
                 text += ["/-- compiled under: %s -/" % ", ".join(self.method_notes[name])]
             text += ["def %s %s : Res %s :=" % (name, binders, FnTr.paren_ty(ft.ret))] + ind(lines) + [""]
